@@ -135,3 +135,55 @@ pub fn observed_fields<'a>(ctx: &'a Ctx, ii: usize, vi: Option<usize>) -> Option
         }
     }
 }
+
+/// The same fact check with typeshare driven through the real binary (single-file mode, configuration through a
+/// typeshare.toml passed with -c): covers the CLI's own parsing front end, configuration plumbing and writer.
+#[derive(Clone, Debug, serde::Serialize, serde::Deserialize)]
+pub struct CliCase {
+    pub via_cli: bool,
+    pub prog: ProgCase,
+}
+pub struct ViaCli<'a> {
+    pub inner: &'a FactCheck,
+    name: &'static str,
+}
+impl<'a> ViaCli<'a> {
+    pub fn new(inner: &'a FactCheck) -> ViaCli<'a> {
+        ViaCli { inner, name: Box::leak(format!("{}-cli", inner.name).into_boxed_str()) }
+    }
+}
+impl<'a> SubCheck for ViaCli<'a> {
+    type Case = CliCase;
+    fn name(&self) -> &'static str {
+        self.name
+    }
+    fn strategy(&self, tier: Tier) -> BoxedStrategy<CliCase> {
+        self.inner.strategy(tier).prop_map(|prog| CliCase { via_cli: true, prog }).boxed()
+    }
+    fn eval(&self, run: &Run, case: &CliCase, w: &mut Worker, counting: bool) -> Vec<Violation> {
+        if counting {
+            run.label("via-cli/cases");
+        }
+        w.via_cli = true;
+        let out = self.inner.eval(run, &case.prog, w, counting);
+        w.via_cli = false;
+        out
+    }
+    fn render(&self, case: &CliCase) -> serde_json::Value {
+        let mut v = render(&case.prog);
+        v["via"] = json!("typeshare binary, single-file mode, -c typeshare.toml");
+        v["typeshare.toml"] = json!(crate::cli::cfg_toml(&case.prog.cfg));
+        v
+    }
+}
+
+/// replay entry for a fact check: in-process case or CLI case
+pub fn replay_fact(run: &Run, fc: &FactCheck, case: &serde_json::Value) -> Result<Vec<Violation>, String> {
+    if case.get("via_cli").is_some() {
+        if !crate::cli::bin_available() {
+            return Err("typeshare binary not built".into());
+        }
+        return replay_case(run, &ViaCli::new(fc), case);
+    }
+    replay_case(run, fc, case)
+}
